@@ -45,6 +45,24 @@ pub struct RunOutcome {
     pub rollback: Option<bool>,
 }
 
+/// does the frozen reference build expand and recreate this file exactly? (arbiter for "the
+/// fault-free round trip fails on this tree": a pre-existing C01 defect, or a regression)
+pub fn reference_roundtrips(file: &[u8]) -> bool {
+    let r = catch_unwind(AssertUnwindSafe(|| {
+        let e = preflate_ref::expand_zlib_chunks(file, 0).ok()?;
+        let mut out = Vec::new();
+        preflate_ref::recreated_zlib_chunks(&mut std::io::Cursor::new(&e[..]), &mut out).ok()?;
+        Some(out)
+    }));
+    match r {
+        Ok(Some(out)) => out == file,
+        _ => {
+            let _ = util::take_last_panic();
+            false
+        }
+    }
+}
+
 fn stream_versions_equal() -> bool {
     VERIF_FILE_VERSION == preflate_ref::REF_FILE_VERSION
 }
